@@ -280,6 +280,9 @@ func shapeKey(c *Case, ex expect, outcome string) string {
 	if c.B64 != "" {
 		shape += "+base64-" + c.B64
 	}
+	if c.CT != "" {
+		shape += "+body-type-" + c.CT
+	}
 	if c.Poison {
 		shape += "+after-failed-decompression"
 	}
@@ -440,6 +443,7 @@ func RunC06(r *mon.Run) {
 	g.timed("laneJSONStrings", func() { g.laneJSONStrings() })
 	g.timed("laneGzipMembers", func() { g.laneGzipMembers() })
 	g.timed("laneWebTextEncodings", func() { g.laneWebTextEncodings() })
+	g.timed("laneBodyContentTypes", func() { g.laneBodyContentTypes() })
 	g.timed("lanePoisonedPool", func() { g.lanePoisonedPool() })
 	g.timed("laneReal", func() { g.laneReal() })
 	g.timed("laneConcurrent", func() { g.laneConcurrent() })
@@ -616,6 +620,72 @@ func (g *gen) laneInterleave() {
 				c := &Case{T: "http", Codec: "httpbody", Shape: "upbidi", Limit: L, Echo: true, EchoMode: md.echo, EchoEvery: md.every, Interfere: md.interfere, Trunc: -1, Msgs: [][]byte{prf(g.rng, n)}}
 				build(c, bodyOpt{})
 				g.sweepSchedules(c, 0, samples)
+			}
+		}
+	}
+}
+
+// bodyTypes: media types of raw HttpBody streams, with and without a codec
+// of their own registered on the mux.
+var bodyTypes = []string{"application/octet-stream", "application/protobuf", "application/json", "image/jpeg", "text/plain", "application/x-verif"}
+
+// rawPayload returns n bytes of one of several kinds: PRF bytes, bytes that
+// read like small varint length prefixes, JSON-looking text.
+func (g *gen) rawPayload(kind, n int) []byte {
+	b := prf(g.rng, n)
+	switch kind % 3 {
+	case 1:
+		for i := range b {
+			b[i] = byte(1 + (i*7+kind)%5)
+		}
+	case 2:
+		txt := `{"a":"}{"}{"seq":1,"text":"x\\"}[{]} `
+		for i := range b {
+			b[i] = txt[i%len(txt)]
+		}
+	}
+	return b
+}
+
+// laneBodyContentTypes: the media type of HttpBody uploads and downloads as
+// a dimension, for Recv/Send-driven and AsHTTPBodyReader/Writer-driven
+// handlers; byte conservation as everywhere.
+func (g *gen) laneBodyContentTypes() {
+	r := g.r
+	samples := r.Pick(1, 5)
+	idx := 0
+	for _, ct := range bodyTypes {
+		for _, L := range []int{7, 64, 0} {
+			base := L
+			if base == 0 {
+				base = 300
+			}
+			lens := []int{0, 1, base - 1, base, base + 1, 3*base + 1}
+			for _, n := range lens {
+				for _, mode := range []string{"httpbody", "httpbody-reader", "upbidi"} {
+					idx++
+					if !r.Thorough() && mode == "httpbody-reader" && idx%2 == 0 {
+						continue
+					}
+					c := &Case{T: "http", Codec: mode, Shape: "upload", Limit: L, CT: ct, Trunc: -1, Msgs: [][]byte{g.rawPayload(idx, n)}, Reply: [][]byte{{}}}
+					if mode == "upbidi" {
+						c.Codec, c.Shape, c.Echo, c.EchoMode = "httpbody", "upbidi", true, []string{"", "long"}[idx%2]
+					}
+					build(c, bodyOpt{})
+					g.sweepSchedules(c, 0, samples)
+				}
+			}
+		}
+		for _, mode := range []string{"httpbody", "httpbody-writer"} {
+			for si, szs := range [][]int{{}, {1}, {5, 0, 7}, {64, 64}, {300, 1, 300}, {3, 3, 3, 3, 3, 3}} {
+				for _, fin := range []int{0, 5} {
+					c := &Case{T: "http", Codec: mode, Shape: "download", CT: ct, Trunc: -1, Final: fin, FinalMsg: "download failed", Msgs: [][]byte{}, Sched: "one-read"}
+					for j, n := range szs {
+						c.Reply = append(c.Reply, mustMarshal(mkBody(ct, g.rawPayload(si+j, n))))
+					}
+					build(c, bodyOpt{})
+					g.run(c)
+				}
 			}
 		}
 	}
